@@ -65,6 +65,16 @@ func goify(name string, public bool) string {
 	return strings.Join(splitted, "")
 }
 
+// goifyArgument is goify for names of method arguments: they must not shadow packages, which are used in the
+// body of generated method
+func goifyArgument(name string) string {
+	res := goify(name, false)
+	if res == "errors" {
+		return "errs"
+	}
+	return res
+}
+
 func (g *Generator) typeIdFromSchemaType(t string) *jen.Statement {
 	item := &jen.Statement{}
 	switch t {
